@@ -569,7 +569,7 @@ def evidence_info():
         "components": {
             "real": ["all of valida from the working tree", "CPython 3.12"],
             "simulated": ["the order in which callers' add_schema / validate operations are applied to the shared schemas"],
-            "shim": ["harness-installed __setattr__ write tracer"],
+            "shim": [],
             "stubbed": [],
             "reference_model": ["schema = list of rule terms; add(S,T,R) = stable sort by path length of S ++ [re-root(r,R) for r in T]; T unchanged; re-root keeps the rule path's modifiers"],
         },
@@ -577,5 +577,6 @@ def evidence_info():
             "'re-rooted at R' is read as: R's parts followed by the rule path's parts, the rule path's datum/multi modifiers kept",
             "the S-before + T-at-R reading is only evaluated for cast-free T rules without path-valued arguments and without multi-type modifiers, on documents where every node selected by R is a non-empty list/mapping",
             "operation-boundary histories only; never two writers on one schema, never S.add_schema(S, ...)",
+            "the order of rules with equally long paths is left open, as the statement leaves it; no digest monitor is used (whether validate() leaves its inputs alone is C08's statement): 'T unchanged' is decided by the model comparison of every schema after every step",
         ],
     }
